@@ -342,11 +342,56 @@ class _Canon(ast.NodeTransformer):
         try:
             n = self.generic_visit(n)
             self._field_copies(n, counts)
+            self._default_fills(n)
             self._entry_aliases(n, counts)
             self._item_copies(n, counts)
             return n
         finally:
             stack.pop()
+
+    def _default_fills(self, fn: ast.FunctionDef) -> None:
+        """`e = D if p is None else p` (as the if / else it abbreviates) is the default fill `if p is None: p = D` with `e` read as `p`,
+        when `p` itself is not used any more; with e == p the else branch `p = p` does nothing and is dropped."""
+        def is_none_test(t):
+            if isinstance(t, ast.Compare) and len(t.ops) == 1 and isinstance(t.left, ast.Name) and isinstance(t.comparators[0], ast.Constant) \
+                    and t.comparators[0].value is None and isinstance(t.ops[0], (ast.Is, ast.Eq, ast.IsNot, ast.NotEq)):
+                return t.left.id, isinstance(t.ops[0], (ast.Is, ast.Eq))
+            return None
+
+        def single_assign(block):
+            if len(block) == 1 and isinstance(block[0], ast.Assign) and len(block[0].targets) == 1 and isinstance(block[0].targets[0], ast.Name):
+                return block[0]
+            return None
+        for st in [x for x in ast.walk(fn) if isinstance(x, ast.If)]:
+            nt = is_none_test(st.test)
+            a, b = single_assign(st.body), single_assign(st.orelse)
+            if nt is None or a is None or b is None or a.targets[0].id != b.targets[0].id:
+                continue
+            p, positive = nt
+            fill, keep = (a, b) if positive else (b, a)
+            e = fill.targets[0].id
+            if not (isinstance(keep.value, ast.Name) and keep.value.id == p) or any(isinstance(x, ast.Name) and x.id in (p, e) for x in ast.walk(fill.value)):
+                continue
+            if not hasattr(st, "lineno"):
+                continue
+            end = getattr(st, "end_lineno", None) or max((getattr(x, "lineno", st.lineno) for x in ast.walk(st)), default=st.lineno)
+            if e != p:
+                occ = [x for x in ast.walk(fn) if isinstance(x, ast.Name) and x.id in (p, e) and not any(x is y for y in ast.walk(st))]
+                if any(not hasattr(x, "lineno") for x in occ):
+                    continue
+                if any(x.id == e and (isinstance(x.ctx, (ast.Store, ast.Del)) or x.lineno < st.lineno) for x in occ):
+                    continue                                    # e is bound or read elsewhere
+                if any(x.id == p and x.lineno > end for x in occ) or any(x.id == p and isinstance(x.ctx, (ast.Store, ast.Del)) and x.lineno >= st.lineno for x in occ):
+                    continue                                    # p lives on: e and p would have to stay two variables
+                if any(isinstance(x, (ast.Global, ast.Nonlocal)) and (p in x.names or e in x.names) for x in ast.walk(fn)):
+                    continue
+                for x in occ:
+                    if x.id == e:
+                        x.id = p
+            st.test = ast.copy_location(ast.Compare(left=ast.copy_location(ast.Name(id=p, ctx=ast.Load()), st.test), ops=[ast.Is()],
+                                                    comparators=[ast.copy_location(ast.Constant(value=None), st.test)]), st.test)
+            st.body = [ast.copy_location(ast.Assign(targets=[ast.copy_location(ast.Name(id=p, ctx=ast.Store()), fill)], value=fill.value), fill)]
+            st.orelse = []
 
     @staticmethod
     def _loads_of_binding(fn: ast.FunctionDef, st: ast.Assign) -> int:
